@@ -14,6 +14,7 @@ use vcommon::{Rng, Trace, Value as J, arg, arg_usize, json, quiet_panics, read_j
 use vh_opt::gen_dag::{dag, shape_arith};
 use vh_opt::gen_fusions::{FAMILIES, Fam};
 use vh_opt::model::CaseD;
+use vh_opt::near_miss::{near_misses, select};
 use vh_opt::run::{load_all, run_case};
 
 fn fnv(s: &str) -> u64 {
@@ -64,6 +65,10 @@ fn main() {
         "record" => {
             let out = arg("--out").expect("--out");
             let per = arg_usize("--per", 10);
+            // near misses are derived from the first `--nm` programs of every template family; all of
+            // them with --nm-all, otherwise a sample (every swap / operator substitution + one per kind)
+            let nm = arg_usize("--nm", 0);
+            let nm_all = std::env::args().any(|a| a == "--nm-all");
             let skip = arg_usize("--skip", 0);
             let only: Option<Vec<String>> = arg("--fams").map(|s| s.split(',').map(|x| x.to_string()).collect());
             let mut id = arg_usize("--first-id", 1);
@@ -77,14 +82,23 @@ fn main() {
                     }
                 }
                 // every (family, k) has its own RNG stream: a run can be resumed with --skip
+                let template = weight == 1;
                 for k in 0..per * weight {
-                    done += 1;
-                    if done <= skip {
-                        continue;
-                    }
                     let mut r = Rng::new(seed ^ fnv(name) ^ (k as u64).wrapping_mul(0x9E3779B97F4A7C15));
                     let c = f(&mut r, k);
-                    emit_case(&mut tr, &mut id, &c, done);
+                    done += 1;
+                    if done > skip {
+                        emit_case(&mut tr, &mut id, &c, done);
+                    }
+                    // (a base whose own perturbation is a registered finding has no clean neighbourhood)
+                    if template && k < nm && c.variant != "keep0" {
+                        for m in select(near_misses(&c), !nm_all, k) {
+                            done += 1;
+                            if done > skip {
+                                emit_case(&mut tr, &mut id, &m, done);
+                            }
+                        }
+                    }
                 }
             }
             tr.flush();
